@@ -139,6 +139,40 @@ class Builder:
         d = doc if doc is not None else (None if is_impl and force_doc is None else self.doc(uid, force_doc))
         return Item(kind, kind, args, uid, doc=d, body=body, endcmd=end, endargs=endargs, is_impl=is_impl, **gt)
 
+    def nested_defs(self, depth):
+        """A definition whose body holds another definition (and/or a member/test implementation); the
+        cmake_parse_arguments calls sit in the inner one, in the outer one, in both or in neither -- each definition
+        independently documented or not."""
+        r = self.rng
+        outer = self.definition(depth)
+        inner = self.definition(depth + 1)
+        inner.body = ([self.cpa()] if r.random() < 0.6 else []) + ([self.plain()] if r.random() < 0.3 else [])
+        body = [inner]
+        if r.random() < 0.3 and depth + 1 < self.max_depth:
+            body.append(self.ct_test(depth + 1))
+        if r.random() < 0.35:
+            body.insert(r.randint(0, len(body)), self.cpa())
+        if r.random() < 0.3:
+            body.insert(r.randint(0, len(body)), self.plain())
+        outer.body = body
+        return outer
+
+    def twin_defs(self, depth):
+        """Two definitions of the same kind with the very same parameter list inside one if() block; the first may call
+        cmake_parse_arguments, each is independently documented (shared-state bugs between definitions)."""
+        r = self.rng
+        kind = r.choice(["function", "macro"])
+        first = self.definition(depth + 1, kind)
+        while not first.gt["params"]:
+            first = self.definition(depth + 1, kind)
+        first.body = [self.cpa()] if r.random() < 0.7 else []
+        uid = self.new_uid()
+        nm = self.def_name("fn" if kind == "function" else "mc", uid)
+        second = Item(kind, kind, [nm] + list(first.args[1:]), uid, doc=self.doc(uid), body=[self.plain()] if r.random() < 0.3 else [],
+                      endcmd="end" + kind, name=nm, params=list(first.gt["params"]))
+        buid = self.new_uid()
+        return Item("block", "if", [f"cN{buid}Z"], buid, doc=None, body=[first, second], endcmd="endif")
+
     def option(self):
         r = self.rng
         uid = self.new_uid()
@@ -341,12 +375,17 @@ class Builder:
                  if not (k == "dangling" and not self.allow_dangling)
                  and not (k == "cpa" and not self.allow_cpa)
                  and not (k == "block" and not self.allow_blocks)
-                 and not (depth >= self.max_depth and k in ("function", "macro", "cpp_class", "block", "ct_add_test"))]
+                 and not (depth >= self.max_depth and k in ("function", "macro", "cpp_class", "block", "ct_add_test", "nested_defs", "twin_defs"))
+                 and not (depth + 1 >= self.max_depth and k == "nested_defs")]
         if not kinds:
             return self.plain()
         k = r.choice(kinds)
         if k in ("function", "macro"):
             return self.definition(depth, k)
+        if k == "nested_defs":
+            return self.nested_defs(depth)
+        if k == "twin_defs":
+            return self.twin_defs(depth)
         if k == "option":
             return self.option()
         if k == "set":
